@@ -384,6 +384,44 @@ func runC08(c *core.Ctx) {
 		okSel = false
 		c.Fail("pump-select", name, g.Fn.Pos(), "not all three arms are taken on some path (recv=%d send=%d done=%d)", nRecv, nSend, nDone)
 	}
+	// a flush loop is left only with the queue empty: every segment that leaves a loop with flush iterations
+	// carries the fact head == nil (a timer / default arm that gives up drops the backlog)
+	for _, h := range g.An.Headers {
+		if h == mainH {
+			continue
+		}
+		flushes := false
+		for _, p := range g.An.Segs[h] {
+			if p.To == h && len(allSends(p)) > 0 {
+				flushes = true
+			}
+		}
+		if !flushes {
+			continue
+		}
+		lb := ir.LoopBlocks(h)
+		for _, p := range g.An.Segs[h] {
+			if p.To != nil && lb[p.To] {
+				continue
+			}
+			empty := false
+			for _, b := range p.Events(ir.KBranch) {
+				at := b.Atom
+				if b.Pol && at.Op == "bin" && at.Aux == "==" && len(at.Args) == 2 {
+					for i := 0; i < 2; i++ {
+						o := at.Args[1-i]
+						if at.Args[i].IsNil() && o.Op == "load" && len(o.Args) == 1 && o.Args[0].Op == "faddr" && o.Args[0].Aux == qh.fHead && ir.Same(o.Args[0].Args[0], mq) {
+							empty = true
+						}
+					}
+				}
+			}
+			if !empty {
+				okFlush = false
+				c.Fail("flush", name, lastPos(p), "the flush loop is left while the queue may still hold values (no head == nil on this exit): the backlog is dropped")
+			}
+		}
+	}
 	// flush loop iterations: send head (plain), one deq, guarded by head != nil
 	for _, h := range g.An.Headers {
 		if h == mainH {
